@@ -189,3 +189,61 @@ Proof.
   - unfold absl. apply entries_of_same_on. intros b Hb'. apply Hd. intros ->. apply in_rev in Hb'. apply Hfresh. now right.
   - apply absl_single. unfold entry_at, payof, sizeof_node in *. destruct (gh g' a) as [n|]; [|discriminate]. injection Hp as Hp. injection Hs as Hs. now rewrite Hp, Hs.
 Qed.
+
+(* ---------- sequences of primitives: the invariant holds BETWEEN any two of them ----------
+   Public operations are sequences of these primitives with user callbacks only in between (A/PanicA.v); a panic in
+   a callback therefore finds a structure satisfying RI. *)
+Inductive bprim :=
+| BTouch (a : addr) | BRemove (a : addr) | BInsert (a : addr) (sz : N) (k : key) (v : val) | BSetSize (a : addr) (sz : N).
+
+Definition bprim_ok (g : gstate) (p : bprim) : Prop :=
+  match p with
+  | BTouch a | BRemove a | BSetSize a _ => In a (glist g)
+  | BInsert a _ _ _ => ~ In a (gseal g :: glist g)
+  end.
+Definition bprim_run (g : gstate) (p : bprim) : option gstate :=
+  match p with
+  | BTouch a => b_touch g a
+  | BRemove a => b_remove g a
+  | BInsert a sz k v => b_insert_new g a sz (PLive k v)
+  | BSetSize a sz => b_set_size g a sz
+  end.
+
+Lemma set_size_RI h seal l a sz : RI h seal l -> In a l -> exists h', set_size h a sz = Some h' /\ RI h' seal l.
+Proof.
+  intros HRI Hin. pose proof HRI as (Hnd & Hc & Hps & Hlive). destruct (Hlive a Hin) as (k & v & Hp).
+  unfold set_size, payof in *. destruct (h a) as [n|] eqn:Ha; [|discriminate]. eexists. split; [reflexivity|].
+  injection Hp as Hp.
+  assert (Hns : a <> seal) by (intros ->; apply NoDup_cons_iff in Hnd as [Hs _]; tauto).
+  split; [exact Hnd|]. split; [|split].
+  - eapply chain_frame; [| |exact Hc]; intros b _; unfold agree_next, agree_prev, nextof, prevof, upd; destruct (N.eqb_spec b a) as [->|]; rewrite ?Ha; reflexivity.
+  - unfold payof, upd. destruct (N.eqb_spec seal a); [congruence|exact Hps].
+  - intros b Hb. unfold payof, upd. destruct (N.eqb_spec b a) as [->|]; [cbn [npay]; rewrite Hp; eauto|]. destruct (Hlive b Hb) as (k' & v' & Hp'). unfold payof in Hp'. eauto.
+Qed.
+
+Theorem bprim_RI g p : RI (gh g) (gseal g) (glist g) -> bprim_ok g p ->
+  exists g', bprim_run g p = Some g' /\ RI (gh g') (gseal g') (glist g') /\ gseal g' = gseal g.
+Proof.
+  intros HRI Hok. destruct p; cbn [bprim_ok bprim_run] in *.
+  - destruct (b_touch_RI g a HRI Hok) as (g' & H1 & H2 & H3 & _). eauto.
+  - destruct (b_remove_RI g a HRI Hok) as (g' & H1 & H2 & H3 & _). eauto.
+  - destruct (b_insert_new_RI g a sz k v HRI Hok) as (g' & H1 & H2 & H3 & _). eauto.
+  - destruct (set_size_RI _ _ _ a sz HRI Hok) as (h' & H1 & H2). unfold b_set_size. rewrite H1. cbn [bind]. eexists. split; [reflexivity|]. cbn. auto.
+Qed.
+
+(* every prefix of a valid sequence of primitives ends in a coherent structure *)
+Inductive bprims_ok : gstate -> list bprim -> Prop :=
+| bp_nil g : bprims_ok g []
+| bp_cons g p g' r : bprim_ok g p -> bprim_run g p = Some g' -> bprims_ok g' r -> bprims_ok g (p :: r).
+Fixpoint bprims_run (g : gstate) (l : list bprim) : option gstate :=
+  match l with [] => Some g | p :: r => g' <- bprim_run g p ;; bprims_run g' r end.
+
+Theorem between_primitives g l : RI (gh g) (gseal g) (glist g) -> bprims_ok g l ->
+  forall pre post, l = pre ++ post -> exists gm, bprims_run g pre = Some gm /\ RI (gh gm) (gseal gm) (glist gm) /\ gseal gm = gseal g.
+Proof.
+  intros HRI Hok. revert HRI. induction Hok as [g|g p g' r Hp Hr Hok IH]; intros HRI pre post El.
+  - destruct pre; [|discriminate]. exists g. cbn. auto.
+  - destruct pre as [|q pre]; [exists g; cbn; auto|]. cbn [app] in El. injection El as <- ->.
+    destruct (bprim_RI g p HRI Hp) as (g2 & H1 & H2 & H3). rewrite Hr in H1. injection H1 as <-.
+    destruct (IH H2 pre post eq_refl) as (gm & Hm & HRIm & Hsm). exists gm. cbn [bprims_run]. rewrite Hr. cbn [bind]. split; [exact Hm|]. split; [exact HRIm|]. congruence.
+Qed.
